@@ -26,8 +26,12 @@ def judge_replay(chk, cases, results):
         key = json.dumps(g["nodes"])
         chk.case(key if (c["wf"] and len(c["dfs"]) > 0) or not c["wf"] else None)
         types = {n["id"]: n["typ"] for n in g["nodes"]}
-        if "panic" in r:
-            chk.violation("C12:panic", {"graph": g, "panic": r["panic"]})
+        if "skipped" in r:
+            chk.extra["skipped_after_hangs"] = chk.extra.get("skipped_after_hangs", 0) + 1
+            continue
+        if "hang" in r or "crash" in r or "panic" in r:
+            kind = "hang" if "hang" in r else ("crash" if "crash" in r else "panic")
+            chk.violation("C12:" + kind, {"graph": g, "detail": r.get("crash") or r.get("panic") or "no answer within 10 s"})
             continue
         pages = r["pages"]
         if any(types.get(p) != "Page" for p in pages):
@@ -77,7 +81,9 @@ def run(tier):
     recs = read_ndjson(tr)
     for rec in recs:
         if "panic" in rec:
-            chk.violation("C12:panic", {"graph": rec["g"], "panic": rec["panic"]})
+            kind = rec["panic"].split(":")[0]
+            if kind != "skipped":
+                chk.violation("C12:" + kind, {"graph": rec["g"], "detail": rec["panic"]})
     validate(chk, tr, recs, w)
     # (B) negative control: corrupt one record of a well-formed tree, the validator must reject it
     neg = None
